@@ -323,25 +323,37 @@ def kde(prog, ctx):
     mult = [c for c in calls(fn) if c.get('kind') == 'method' and c['callee']['name'] == 'Multiply']
     rets = [s for s in fn.body['body'] if s['k'] == 'Return']
     ok = False
+    approx = None
     detail = 'no Multiply call'
     if len(mult) == 1 and len(rets) == 1:
         obj = show(mult[0]['obj'])
         g = __import__('lpv.guards', fromlist=['GuardScan']).GuardScan(prog, fn, {})
         a = strip_casts(g.subst(mult[0]['args'][0]))
         detail = 'result.Multiply(%s)' % show(a)
+        ps = [p['name'] for p in fn.params]
         if a.get('k') == 'Bin' and a['op'] == '/' and strip_casts(a['lhs']).get('val') in ('1.0', '1'):
             den = strip_casts(a['rhs'])
-            if den.get('k') == 'Call' and (den.get('callee') or {}).get('q') == L + 'Integrate':
+            cc = (den.get('callee') or {}) if den.get('k') == 'Call' else {}
+            if den.get('k') == 'Call' and den.get('kind') == 'method' and cc.get('q') == L + 'Interpolation::Integrate':
+                # the interpolant's own (exact) integral
+                args = den['args']
+                ok = show(strip(den['obj'])) == obj and show(strip_casts(args[0])) == ps[1] and show(strip_casts(args[1])) == ps[2] and \
+                    show(strip(rets[0]['e'])) == obj
+            elif den.get('k') == 'Call' and cc.get('q') == L + 'Integrate':
                 args = den['args']
                 first = args[0]
                 while strip(first).get('k') in ('Construct', 'Copy') and (strip(first).get('args') or strip(first).get('e')):
                     first = strip(first)['args'][0] if strip(first).get('k') == 'Construct' else strip(first)['e']
-                ps = [p['name'] for p in fn.params]
-                ok = show(strip_casts(first)) == obj and show(strip_casts(args[1])) == ps[1] and show(strip_casts(args[2])) == ps[2] and \
-                    show(strip(rets[0]['e'])) == obj
-    ctx.decide('C07.f', 'Perform_KDE:normalisation', fn, ok, 'the estimate is divided by its own integral over [xMin,xMax]: ' + detail,
-               'the estimate is not normalised by the integral of the returned curve: ' + detail,
-               witness={'reproducer': 'data piling up at a window edge: a rectangle-sum normalisation integrates to 0.98-0.996'} if not ok else None)
+                if show(strip_casts(first)) == obj and show(strip_casts(args[1])) == ps[1] and show(strip_casts(args[2])) == ps[2]:
+                    approx = 'the adaptive Simpson routine Integrate(result, xMin, xMax, %s)' % show(strip_casts(args[3])) if len(args) > 3 else 'Integrate(result, ...)'
+    if approx:
+        ctx.violated('C07.f', 'Perform_KDE:normalisation', fn, 'the estimate is divided by %s instead of the exact integral of the tabulated curve: the adaptive rule accepts the '
+                     'whole window when its first five probes miss the kernels (a window much wider than the data), and the "norm" is then ~0, 0 or negative' % approx,
+                     witness={'reproducer': 'Perform_KDE({DataPoint(0.375,1)}, 0, 1, 0.02) integrates to 3.1e7; one sample at 0.895 with bandwidth 0.003 gives a density that is negative everywhere'})
+    else:
+        ctx.decide('C07.f', 'Perform_KDE:normalisation', fn, ok, 'the estimate is divided by its own exact integral over [xMin,xMax]: ' + detail,
+                   'the estimate is not normalised by the integral of the returned curve: ' + detail,
+                   witness={'reproducer': 'data piling up at a window edge: a rectangle-sum normalisation integrates to 0.98-0.996'} if not ok else None)
 
 
 def kde_scale(prog, ctx):
